@@ -158,6 +158,18 @@ def tlc_trace(spec_files, module, trace_path, work, timeout=1800, trace_name="tr
     return viol, r
 
 
+def trace_samples(trace_path, n=3, ev="Reset"):
+    """the first n scenario headers of a concatenated trace, as evidence samples"""
+    out = []
+    with open(trace_path) as f:
+        for line in f:
+            if '"ev":"%s"' % ev in line:
+                out.append(json.loads(line))
+                if len(out) >= n:
+                    break
+    return out or [{"note": "no scenario header found"}]
+
+
 # ---------------------------------------------------------------------------
 # known findings, evidence, verdict
 
